@@ -39,6 +39,8 @@ class Contract:
         # check_frame: opt-in syntactic frame check - every heap field written on a path (other than at objects created
         # on that path) must be named by some `modifies` entry (see verify._frame_check)
         self.check_frame: bool = kw.pop("check_frame", False)
+        # second, purely syntactic frame check (heap arrays changed only by Stores at objects created on the path)
+        self.check_frame_syntactic: bool = kw.pop("check_frame_syntactic", False)
         # stop_at: anchors (statement text) at which the path ENDS after the cuts placed there are proved: a PREFIX
         # verification - nothing is claimed about the code from that statement on (no exit obligations are generated)
         self.stop_at: list[str] = kw.pop("stop_at", [])
